@@ -475,6 +475,9 @@ fn do_replay(world: &World, path: &str) -> i32 {
         return 2;
     }
     let want = v.get("check").and_then(|x| x.as_str()).unwrap_or("");
+    if v.pointer("/info/canary").and_then(|x| x.as_bool()) == Some(true) {
+        exec::CANARY.store(true, std::sync::atomic::Ordering::Relaxed);
+    }
     if v.pointer("/info/source").and_then(|x| x.as_str()) == Some("ubprobe") {
         exec::LEAN.store(true, std::sync::atomic::Ordering::Relaxed);
     }
@@ -537,6 +540,8 @@ struct Args {
     miri_workspace: Option<String>,
     /// same, but only used when a native violation fails to replay (quick tier)
     miri_on_demand: Option<String>,
+    /// alarm-path self-test child: run with a deliberately wrong reference model
+    canary: bool,
 }
 
 fn parse_args() -> Args {
@@ -562,6 +567,7 @@ fn parse_args() -> Args {
         also: Vec::new(),
         miri_workspace: None,
         miri_on_demand: None,
+        canary: false,
     };
     let mut it = std::env::args().skip(1);
     a.cmd = it.next().unwrap_or_default();
@@ -594,6 +600,7 @@ fn parse_args() -> Args {
             "--variant" => a.variant = val(),
             "--miri-probe" => a.miri_workspace = Some(val()),
             "--miri-on-demand" => a.miri_on_demand = Some(val()),
+            "--canary" => a.canary = true,
             "--codec-only" => a.codec_only = true,
             "--also" => {
                 let v = val();
@@ -787,8 +794,52 @@ fn exec_concurrently(world: &World, t: &Trace, f: &Fault) -> Option<Violation> {
     })
 }
 
+/// Alarm-path self-test: a child process runs a small batch against a deliberately wrong reference
+/// model; it must exit 1, print a VIOLATION line, and leave a minimised replay file that reproduces.
+fn alarm_path_selftest(args: &Args) -> Result<Value, String> {
+    let me = std::env::current_exe().map_err(|e| e.to_string())?;
+    let dir = format!("{}/selftest-{}", args.replay_dir, std::process::id());
+    let evp = format!("{}/evidence.json", dir);
+    std::fs::create_dir_all(&dir).map_err(|e| e.to_string())?;
+    let out = std::process::Command::new(&me)
+        .args(["run", "--tier", "quick", "--seed", &args.seed.to_string(), "--runs", "300", "--workers", "4", "--variant", "canary", "--canary", "--evidence", &evp, "--replay-dir", &dir, "--known", "/nonexistent"])
+        .output()
+        .map_err(|e| e.to_string())?;
+    let so = String::from_utf8_lossy(&out.stdout).to_string();
+    let line = so.lines().find(|l| l.starts_with("VIOLATION property=")).map(|l| l.to_string());
+    let path = line.as_ref().and_then(|l| l.rsplit("replay=").next()).unwrap_or("").to_string();
+    let doc: Value = std::fs::read_to_string(&path).ok().and_then(|t| serde_json::from_str(&t).ok()).unwrap_or(Value::Null);
+    // replay it once more ourselves, in yet another process
+    let again = std::process::Command::new(&me).args(["replay", &path]).output().map_err(|e| e.to_string())?;
+    let again_ok = again.status.code() == Some(1) && String::from_utf8_lossy(&again.stdout).contains("REPLAY-VIOLATION check=E1");
+    let res = json!({
+        "what": "a child process ran 300 histories against a deliberately wrong (big-endian) reference model",
+        "child_exit": out.status.code(), "violation_line": line.is_some(),
+        "check_id": doc.get("check"), "records_after_minimisation": doc.pointer("/trace/records").and_then(|r| r.as_array()).map(|a| a.len()),
+        "records_before_minimisation": doc.pointer("/info/minimised/records_before"),
+        "replayed_in_a_fresh_process": again_ok,
+    });
+    let _ = std::fs::remove_dir_all(&dir);
+    if out.status.code() != Some(1) || line.is_none() || doc.get("check").and_then(|c| c.as_str()) != Some("E1") || !again_ok {
+        return Err(format!("alarm-path self-test failed: {}", res));
+    }
+    Ok(res)
+}
+
 fn cmd_run(world: &World, args: &Args) -> i32 {
     let t0 = Instant::now();
+    exec::CANARY.store(args.canary, std::sync::atomic::Ordering::Relaxed);
+    let alarm_selftest = if args.canary || args.variant != "main" {
+        json!(null)
+    } else {
+        match alarm_path_selftest(args) {
+            Ok(v) => v,
+            Err(e) => {
+                eprintln!("harness error: {}", e);
+                return 2;
+            }
+        }
+    };
     let known = match load_known(&args.known) {
         Ok(k) => k,
         Err(e) => {
@@ -885,7 +936,7 @@ fn cmd_run(world: &World, args: &Args) -> i32 {
             format!("{}/{}-{}-{}-{}.json", args.replay_dir, args.seed, run, mv.check, args.variant)
         };
         let info = json!({
-            "seed": args.seed, "run": run, "tier": tier_name, "variant": args.variant,
+            "seed": args.seed, "run": run, "tier": tier_name, "variant": args.variant, "canary": args.canary,
             "minimised": {"shrink_attempts": tries, "records_before": t.records.len(), "records_after": mt.records.len(),
                            "fault_before": f.to_json(), "fault_after": mf.to_json()},
             "original_detail": v.detail,
@@ -1122,6 +1173,7 @@ fn cmd_run(world: &World, args: &Args) -> i32 {
             "build_configurations": variants_json,
             "interpreter_probe": ub_probe,
             "native_violation_that_did_not_replay": unreproducible,
+            "alarm_path_selftest": alarm_selftest,
             "components": {
                 "real_code": ["substrate-fixed derived Encode/Decode/MaxEncodedLen/TypeInfo for FixedI8..FixedU128 (incl. derive-generated decode_into)", "substrate-fixed from_bits/to_bits/{from,to}_{le,be,ne}_bytes (inherent and Fixed-trait)", "substrate-fixed Wrapping::{from_bits,to_bits}", "substrate-fixed serde Serialize/Deserialize impls (Fixed*, Wrapping)", "parity-scale-codec 3.7.5 integer/array/Vec/Option/tuple/Box codecs, Compact<u32> length prefix, EncodeAppend, DecodeLength, DecodeAll, DecodeLimit, Joiner, KeyedVec, IoReader", "std::io::Read::read_exact", "scale-info registry", "serde_json, serde_cbor"],
                 "stubs_owned_by_the_simulator": ["SimOutput (codec::Output)", "SimInput (codec::Input)", "SimRead (std::io::Read under IoReader)", "TokSer / TokDe (serde Serializer / Deserializer, SeqAccess, MapAccess)", "the medium (a byte vector)", "reference model: bits >> 8i little-endian bytes + shape framing", "metadata-driven foreign decoder", "hand-written LE reader"],
